@@ -184,8 +184,14 @@ def step (s : Sched) (ev : Ev) : Sched × List Out :=
       | true, t :: _ => [.onEnd t.tid t.remaining .proxyExited]
       | _, _ => []
     if destErr then
-      -- Run: UnlockAndRemove, report, reconnect to the primary destination, go on with the queue
-      let back : List Out := if s.cur = s.primary then [] else [.setDest s.primary false]
+      -- Run: UnlockAndRemove, report; a proxy that exited while on the primary destination could not
+      -- reconnect it: the miner is released (every queued task is told); otherwise back to the
+      -- primary destination and on with the queue
+      if s.cur = s.primary then
+        let tl := dropInService s.tl
+        ({ s with tl := tl, cb := none, exited := true }, head ++ [.destErr] ++ disconnectOuts tl.tasks ++ [.exited])
+      else
+      let back : List Out := [.setDest s.primary false]
       let s1 := { s with tl := dropInService s.tl, cur := s.primary, cb := none, idle := false }
       let r := settle (fuelFor s1) s1
       (r.1, head ++ [.destErr] ++ back ++ r.2)
